@@ -78,7 +78,14 @@ def gen_case(rng, kind, dyadic=False, batch="none", n=None, code=None, route=Non
     c["route"] = route
     names = PARAM_NAMES[kind]
     S = 1 if batch == "none" or not names else rng.choice([2, 3])
-    if batch == "all":
+    if batch == "two" and names:
+        # TWO sample dimensions [S1, S2, d] (chains x draws); the frequencies shared, with fewer batch dimensions, or full
+        c["S1"], c["S2"] = rng.choice([2, 3]), rng.choice([2, 3])
+        S = c["S1"] * c["S2"]
+        bflags = {k: True for k in names}
+        if "frequencies" in names and len(names) > 1:
+            bflags["frequencies"] = rng.choice([False, False, "inner", True])
+    elif batch == "all":
         bflags = {k: True for k in names}
     elif batch == "subset" and names:
         bflags = {k: rng.random() < 0.5 for k in names}
@@ -119,7 +126,7 @@ def gen_case(rng, kind, dyadic=False, batch="none", n=None, code=None, route=Non
         dims["rates"] = nrates
     params = {}
     for name in names:
-        rows = S if bflags[name] else 1
+        rows = c["S2"] if bflags[name] == "inner" else (S if bflags[name] else 1)
         if name == "frequencies":
             params[name] = [gen_freqs(rng, n, dyadic) for _ in range(rows)]
         else:
@@ -127,6 +134,8 @@ def gen_case(rng, kind, dyadic=False, batch="none", n=None, code=None, route=Non
     # Empirical takes plain tensors: never batched
     if kind == "Empirical":
         S = 1
+        c.pop("S1", None)
+        c.pop("S2", None)
         bflags = {k: False for k in names}
         params = {k: v[:1] for k, v in params.items()}
     R = S if S > 1 else rng.choice([1, 1, 2])
@@ -155,7 +164,7 @@ def gen_case(rng, kind, dyadic=False, batch="none", n=None, code=None, route=Non
     if rng.random() < 0.2:
         c["deepcopy"] = True
     if rng.random() < 0.2:
-        c["move"] = rng.choice(["cpu", "to"])
+        c["move"] = rng.choice(["cpu", "to", "to_dtype"])
     return c
 
 
@@ -174,8 +183,10 @@ def reference_low_precision(c):
 
 
 def low_precision(c):
-    """results are float32 in this regime"""
+    """results are float32 in this regime (or the model was converted from/to float32 after construction)"""
     r = regime_of(c)
+    if c.get("move") == "to_other":
+        return True
     return r == "f32in" or (r == "f32default" and c["kind"] in ("LG", "WAG"))
 
 
@@ -289,6 +300,7 @@ def add_updates(rng, c, k, which=None):
         if rng.random() < 0.4:
             u["gmove"] = {"on": rng.choice(["model", "holder", "inner"]), "name": rng.choice(names),
                           "how": rng.choice(["cpu", "to"])}
+        u["mode"] = rng.choice(["assign", "assign", "augmented", "setitem", "inplace_fire"])
         ups.append(u)
     c["updates"] = ups
     if regime_of(c) == "f32in":
@@ -319,14 +331,31 @@ def state_at(c, k):
 
 
 def slice_param(c, name, s):
+    """batch flag: False (one shared vector), True (one row per sample; with two sample dimensions S = S1*S2 rows in
+    row-major order), "inner" (S2 rows: fewer batch dimensions than the others, broadcast over the first one)"""
     v = c["params"][name]
-    return v[s] if c["batch"][name] else v[0]
+    b = c["batch"][name]
+    if b == "inner":
+        return v[s % c["S2"]]
+    return v[s] if b else v[0]
+
+
+def param_tensor(c, name, rows, torch):
+    b = c["batch"][name]
+    if not b:
+        return torch.tensor(rows[0], dtype=torch.float64)
+    t = torch.tensor(rows, dtype=torch.float64)
+    if b is True and c.get("S1"):
+        t = t.reshape(c["S1"], c["S2"], t.shape[-1])
+    return t
 
 
 def supported_batching(c):
     """patterns every builder must accept: nothing batched, or everything batched"""
     b = list(c["batch"].values())
-    return not b or all(b) or not any(b)
+    if c.get("S1"):
+        return False  # two sample dimensions / fewer batch dimensions: a builder may refuse, it must not be wrong
+    return not b or all(x is True for x in b) or not any(b)
 
 
 # ------------------------------------------------------------------ the real classes
@@ -386,8 +415,7 @@ def build(c):
     in_dtype = getattr(torch, IN_DTYPE[regime_of(c)])
 
     def tens(name):
-        v = c["params"][name]
-        return torch.tensor(v if c["batch"][name] else v[0], dtype=torch.float64).to(in_dtype)
+        return param_tensor(c, name, c["params"][name], torch).to(in_dtype)
 
     holders = c.get("holder") or {}
 
@@ -541,8 +569,7 @@ def observe(m, c):
     for nm in PARAM_NAMES[k]:
         if k == "Empirical":
             continue
-        v = c["params"][nm]
-        t = torch.tensor(v if c["batch"][nm] else v[0], dtype=torch.float64).to(getattr(torch, IN_DTYPE[regime_of(c)]))
+        t = param_tensor(c, nm, c["params"][nm], torch).to(getattr(torch, IN_DTYPE[regime_of(c)]))
         holder = getattr(m, "_" + nm, None)
         if holder is None:
             holder = getattr(m, nm, None)
@@ -610,7 +637,12 @@ def _impl_eval(c, outs, regime, copy):
     lay = LAYOUT[c.get("layout", "BK")]
     ts_dtype = torch.float32 if (regime == "f32in" or (regime == "f32default" and c["kind"] in ("LG", "WAG"))) \
         else torch.float64
-    ts = torch.tensor(c["ts"], dtype=torch.float64).to(ts_dtype).reshape((R,) + lay)
+    if c.get("move") == "to_other":
+        # an input-free model converted to the OTHER floating dtype after construction, then used in that dtype
+        built = torch.float32 if regime == "f32default" else torch.float64
+        ts_dtype = torch.float64 if built == torch.float32 else torch.float32
+    lead = (c["S1"], c["S2"]) if c.get("S1") and R == c["S1"] * c["S2"] else (R,)
+    ts = torch.tensor(c["ts"], dtype=torch.float64).to(ts_dtype).reshape(lead + lay)
     if R == 1:
         ts = ts[0]
     ts_supplied = ts.clone()
@@ -621,6 +653,29 @@ def _impl_eval(c, outs, regime, copy):
             m.cpu()
         elif c.get("move") == "to":
             m.to(torch.device("cpu"))
+        elif c.get("move") == "to_other":
+            m.to(ts_dtype)
+        elif c.get("move") == "to_dtype" and not hasattr(m, "mapping"):
+            # a conversion to the dtype everything already has (not for the models holding the index-valued `mapping`
+            # Parameter: Model.to(dtype) converts it to floating point and indexing then raises — recorded observation)
+            m.to(ts_dtype)
+
+    def assign(holder, t, mode):
+        """the ways a user changes a parameter: a new tensor; augmented assignment on the property (`p.tensor *= 0;
+        p.tensor += t` hands the SAME tensor object back to the setter); item assignment followed by `p.tensor =
+        p.tensor`; in-place copy followed by fire_parameter_changed()"""
+        plain = type(holder).__name__ == "Parameter"
+        if mode == "assign" or not plain or not t.is_floating_point() or holder.tensor.shape != t.shape:
+            holder.tensor = t
+        elif mode == "augmented":
+            holder.tensor *= 0.0
+            holder.tensor += t
+        elif mode == "setitem":
+            holder.tensor[...] = t
+            holder.tensor = holder.tensor
+        else:
+            holder.tensor.copy_(t)
+            holder.fire_parameter_changed()
 
     def read():
         cap.clear()
@@ -743,9 +798,9 @@ def _impl_eval(c, outs, regime, copy):
                 if name == "mapping":
                     m.mapping.tensor = torch.tensor(rows, dtype=torch.long)
                     continue
-                t = torch.tensor(rows if c["batch"][name] else rows[0], dtype=torch.float64).to(supplied[name].dtype)
+                t = param_tensor(c, name, rows, torch).to(supplied[name].dtype)
                 supplied[name] = t.clone()
-                pars[name].tensor = t
+                assign(pars[name], t, u.get("mode", "assign"))
             if c.get("move") and i % 2 == 0:
                 move()
             outs.append(read())
@@ -955,7 +1010,10 @@ def oracle(c, out):
     f32in = regime == "f32in"
     qtol = 1e-4 if f32in or (regime == "f32default" and c["kind"] in ("JC69", "GeneralJC69", "LG", "WAG")) else 1e-12
     # float32 results, or a reference built from a float32 q() (JC69/GeneralJC69/LG/WAG live in the default dtype)
-    tr = "f32in" if (f32in or (regime == "f32default" and c["kind"] in ("LG", "WAG", "JC69", "GeneralJC69"))) else "f64"
+    tr = "f32in" if (f32in or c.get("move") == "to_other" or
+                     (regime == "f32default" and c["kind"] in ("LG", "WAG", "JC69", "GeneralJC69"))) else "f64"
+    if c.get("move") == "to_other":
+        qtol = 1e-4
     meta = out.get("meta") or {}
     for key in ("not_repeatable", "mutated_inputs", "original_changed_by_updates_on_its_deepcopy"):
         if meta.get(key):
@@ -972,7 +1030,7 @@ def oracle(c, out):
     if meta:
         lowp = f32in or (regime == "f32default" and c["kind"] in ("LG", "WAG"))
         want_p = "torch.float32" if lowp else "torch.float64"
-        if meta.get("P_dtype") != want_p:
+        if meta.get("P_dtype") != want_p and c.get("move") != "to_other":
             bad.append(("result_dtype", {"regime": regime, "P": meta.get("P_dtype"), "expected": want_p}))
     for s in range(c["R"]):
         Q = np.asarray(out["Q"][s], dtype=np.float64)
